@@ -420,9 +420,6 @@ func (s *Style) PrintPath(p *Path) string {
 func (s *Style) PrintExpr(e *Expr) string {
 	t := s.printExpr(e)
 	n := e.Par
-	if s != nil && s.Redundant && s.R != nil && s.R.Intn(6) == 0 {
-		n++
-	}
 	for i := 0; i < n; i++ {
 		t = "(" + s.ws(false) + t + s.ws(false) + ")"
 	}
@@ -728,4 +725,63 @@ func (e *Expr) kindGuess() reflect.Kind {
 		return reflect.Bool
 	}
 	return reflect.Invalid
+}
+
+// Decorate adds redundant parenthesis pairs (Par) at random expression-level positions of e.
+// Receivers of method calls are atoms in the grammar and are never parenthesised.
+func Decorate(e *Expr, r *rand.Rand) {
+	if e == nil {
+		return
+	}
+	if r.Intn(6) == 0 && e.Par < 2 {
+		e.Par++
+	}
+	Decorate(e.L, r)
+	Decorate(e.R, r)
+	for _, a := range e.Args {
+		Decorate(a, r)
+	}
+	if e.Recv != nil {
+		// only below the receiver (its arguments / selectors), not the receiver itself
+		for _, a := range e.Recv.Args {
+			Decorate(a, r)
+		}
+		decoratePath(e.Recv.Path, r)
+		if e.Recv.Recv != nil {
+			Decorate(&Expr{Op: "call", Recv: e.Recv.Recv}, r)
+		}
+	}
+	decoratePath(e.Path, r)
+}
+
+func decoratePath(p *Path, r *rand.Rand) {
+	if p == nil {
+		return
+	}
+	for _, st := range p.Steps {
+		Decorate(st.Sel, r)
+	}
+}
+
+// DecorateProgram decorates every expression of a program once (shared objects stay shared).
+func DecorateProgram(p *Program, r *rand.Rand) {
+	seen := map[*Expr]bool{}
+	dec := func(e *Expr) {
+		if e != nil && !seen[e] {
+			seen[e] = true
+			Decorate(e, r)
+		}
+	}
+	for _, rule := range p.Rules {
+		dec(rule.When)
+		for _, st := range rule.Then {
+			dec(st.RHS)
+			if st.Call != nil {
+				for _, a := range st.Call.Args {
+					dec(a)
+				}
+			}
+			decoratePath(st.Target, r)
+		}
+	}
 }
